@@ -196,6 +196,16 @@ where
     })
 }
 
+/// Like `to_mirror`, but a layout mismatch is returned instead of ending the run.
+pub fn try_to_mirror<R, M>(real: &R) -> Result<M, String>
+where
+    R: SchemaWrite<wincode::config::DefaultConfig, Src = R>,
+    M: for<'de> SchemaRead<'de, wincode::config::DefaultConfig, Dst = M>,
+{
+    let bytes = wincode::serialize(real).map_err(|e| format!("{e:?}"))?;
+    wincode::deserialize::<M>(&bytes).map_err(|e| format!("{e:?}"))
+}
+
 /// mirror -> bytes -> real decoder (the network one: exact length, MTU preallocation cap)
 pub fn from_mirror<M, R>(m: &M) -> Result<R, String>
 where
